@@ -183,6 +183,9 @@ OnTx(rs, e) ==
       gd == IF d \in St THEN rs.grant[d] ELSE NoGrant
       c11t == <<
         <<"C11.max3", (retry /\ ~rs.pasTaint /\ rs.unread = 0) => rs.pas.n + 1 <= 3>>,
+        \* "repeats the pass ... if nothing is heard": no other station has put anything on the wire since the pass that is
+        \* repeated (at least two character times ago, so that the passer could have heard it)
+        <<"C11.silent", (retry /\ ~single) => (last.by = s \/ e.t0 < last.t0 + 2 * 11 * (cfg.tid \div 33))>>,
         <<"C11.immediate", (retry /\ ~single /\ d \in St /\ d \in rs.online) => ~(gd.pending /\ gd.just /\ gd.inring /\ gd.froms = {s} /\ s = rs.pub[d].ps)>>,
         <<"C11.drop", (moveOn /\ rs.pas.by = s /\ ~rs.pasTaint /\ rs.unread = 0) => rs.pas.to \notin ToSet(rs.pub[s].las)>>,
         \* "repeats the pass at most twice if nothing is heard, THEN removes the silent successor": the successor is
@@ -227,7 +230,7 @@ OnTx(rs, e) ==
       clause == FirstBad(allc)
       hits == (IF jring THEN <<"C01." \o cls>> ELSE <<>>)
               \o (IF j11 /\ accepting THEN <<"C11.accept">> ELSE <<>>)
-              \o (IF j11 /\ retry THEN <<"C11.max3">> ELSE <<>>)
+              \o (IF j11 /\ retry THEN <<"C11.max3", "C11.silent">> ELSE <<>>)
               \o (IF j11 /\ moveOn THEN <<"C11.drop", "C11.patience">> ELSE <<>>)
               \o (IF judged /\ passOn /\ rs.expectSucc[s] # -1 THEN <<"C12.successor">> ELSE <<>>)
               \o (IF passOn /\ rs.reached THEN <<ConvProp(rs) \o ".order">> ELSE <<>>)
@@ -409,7 +412,7 @@ RuleStep(rs, e) ==
     [] OTHER              -> R("ok", NoSig, rs, <<>>)
 
 AllClauses == {"C01.overlap", "C01.permission", "C01.tsdr", "C01.tid", "C01.Reply", "C01.Holder", "C01.PassSupervision", "C01.Claim", "C01.None",
-               "C11.accept", "C11.max3", "C11.immediate", "C11.drop", "C11.patience", "C11.heard", "C11.own",
+               "C11.accept", "C11.max3", "C11.silent", "C11.immediate", "C11.drop", "C11.patience", "C11.heard", "C11.own",
                "C12.range", "C12.one", "C12.cadence", "C12.successor", "C12.reply.state", "C12.reply.when", "C12.ready",
                "C13.hold", "C13.starve",
                "C15.holder", "C15.rr", "C15.done", "C15.once", "C15.match", "C15.form", "C15.reply", "C15.timeout",
